@@ -634,6 +634,17 @@ impl CodegenContext {
                                 .allowed("filename")
                                 .extract(id.span, &kvps)?;
                             let name = to_identifier(extractor.get_string(self, "name")?)?;
+                            if let Some(size) = extractor.try_get_i64(self, "size")? {
+                                if !(0..=0x10000).contains(&size) {
+                                    return Err(Diagnostic::error()
+                                        .with_message(format!(
+                                            "bank '{}': 'size' must be between 0 and 65536, but is {}",
+                                            name, size
+                                        ))
+                                        .with_labels(vec![id.span.to_label()])
+                                        .into());
+                                }
+                            }
 
                             let opts = BankOptions {
                                 name: name.clone(),
